@@ -39,7 +39,7 @@ type c15K struct {
 	optsT string // "pkg.CacheOptions"
 }
 
-func (k *c15K) fld(name string) string { return "Cache." + name }
+func (k *c15K) fld(name string) string { return name }
 
 func checkC15(c *Ctx) {
 	r := c.R
@@ -79,7 +79,8 @@ func checkC15(c *Ctx) {
 	k.checkWriters()
 
 	c.Fixture("c15ttl", func(fp *Prog, fr *Report) {
-		fx := &c15X{p: fp, cfg: c15Cfg{CacheT: fp.ModPath + ".cache", EntryT: fp.ModPath + ".entry", ClockF: "clock", ExpF: "exp", MaxF: "maxTTL"},
+		fx := &c15X{p: fp, cfg: c15Cfg{CacheT: fp.ModPath + ".cache", EntryT: fp.ModPath + ".entry", ExpF: "exp",
+			ClockF: FieldID{fp.ModPath + ".cache", "clock"}.String(), MaxF: FieldID{fp.ModPath + ".cache", "maxTTL"}.String()},
 			noInline: func(f *ssa.Function) bool { return f.Name() == "lookup" || f.Name() == "store" }}
 		for _, fn := range fp.Funcs {
 			if fn.Parent() != nil || fn.Signature.Recv() == nil {
@@ -152,36 +153,53 @@ func c15ResolveRoles(c *Ctx) *c15K {
 		undecided("anchor type Cache is no longer a struct")
 	}
 	k := &c15K{c: c, r: c.R, p: p, pkg: pkg, optsT: pkg + ".CacheOptions"}
-	cfg := c15Cfg{CacheT: pkg + ".Cache"}
+	cfg := c15Cfg{CacheT: pkg + ".Cache", Holders: map[string]bool{}, OptsT: pkg + ".CacheOptions", NowFuncs: map[string]bool{}}
 	var mapT *types.Named
-	var ints, chans, clocks []string
-	for i := 0; i < cst.NumFields(); i++ {
-		f := cst.Field(i)
-		ft := types.Unalias(f.Type())
-		if n, ok := deref(ft).(*types.Named); ok && n.Obj().Pkg() != nil && n.Obj().Pkg().Path() == c15Hax && n.Obj().Name() == "Map" {
-			if mapT != nil {
-				undecided("Cache has more than one haxmap.Map field: the store cannot be identified")
+	var ints, chans, clocks, nowFuncs []string
+	// the state fields: those of Cache and of the struct types of this package nested in it
+	var scan func(holder string, st *types.Struct, depth int)
+	scan = func(holder string, st *types.Struct, depth int) {
+		for i := 0; i < st.NumFields(); i++ {
+			f := st.Field(i)
+			ft := types.Unalias(f.Type())
+			key := FieldID{holder, f.Name()}.String()
+			if n, ok := deref(ft).(*types.Named); ok && n.Obj().Pkg() != nil && n.Obj().Pkg().Path() == c15Hax && n.Obj().Name() == "Map" {
+				if mapT != nil {
+					undecided("Cache has more than one haxmap.Map field: the store cannot be identified")
+				}
+				mapT, k.mapF = n, key
+				continue
 			}
-			mapT, k.mapF = n, f.Name()
-			continue
-		}
-		switch u := ft.Underlying().(type) {
-		case *types.Chan:
-			chans = append(chans, f.Name())
-		case *types.Basic:
-			if u.Info()&types.IsInteger != 0 {
-				ints = append(ints, f.Name())
+			if n, ok := deref(ft).(*types.Named); ok && n.Obj().Pkg() != nil && n.Obj().Pkg().Path() == pkg && depth < 2 {
+				if nst := c15StructOf(n.Origin()); nst != nil && namedKey(n) != cfg.OptsT {
+					cfg.Holders[namedKey(n)] = true
+					scan(namedKey(n), nst, depth+1)
+					continue
+				}
 			}
-		case *types.Interface:
-			if c15HasNow(ft) {
-				clocks = append(clocks, f.Name())
-			}
-		default:
-			if _, isPtr := ft.(*types.Pointer); isPtr && c15HasNow(ft) {
-				clocks = append(clocks, f.Name())
+			switch u := ft.Underlying().(type) {
+			case *types.Chan:
+				chans = append(chans, key)
+			case *types.Basic:
+				if u.Info()&types.IsInteger != 0 {
+					ints = append(ints, key)
+				}
+			case *types.Interface:
+				if c15HasNow(ft) {
+					clocks = append(clocks, key)
+				}
+			case *types.Signature:
+				if u.Params().Len() == 0 && u.Results().Len() == 1 && c15IsTimeTime(u.Results().At(0).Type()) {
+					nowFuncs = append(nowFuncs, key)
+				}
+			default:
+				if _, isPtr := ft.(*types.Pointer); isPtr && c15HasNow(ft) {
+					clocks = append(clocks, key)
+				}
 			}
 		}
 	}
+	scan(cfg.CacheT, cst, 0)
 	if mapT == nil {
 		undecided("Cache no longer has a *haxmap.Map field (the store anchor moved)")
 	}
@@ -226,6 +244,7 @@ func c15ResolveRoles(c *Ctx) *c15K {
 		undecided("the value field of the entry type cannot be identified")
 	}
 	k.x = &c15X{p: p, cfg: cfg}
+	k.resolveNowFuncs(nowFuncs)
 	// the cap field: the integer field NewCache fills from CacheOptions.MaxTTL;
 	// with a single integer field that one (so that a dropped wiring is seen as such)
 	k.x.cfg.MaxF = k.wiredFrom(ints)
@@ -242,6 +261,36 @@ func c15ResolveRoles(c *Ctx) *c15K {
 	}
 	k.resolveChans(chans)
 	return k
+}
+
+// resolveNowFuncs: a func() time.Time state field whose only store binds the
+// Now method of a clock-typed value reads the cache clock; one bound to
+// time.Now reads the wall clock.
+func (k *c15K) resolveNowFuncs(keys []string) {
+	want := map[string]bool{}
+	for _, key := range keys {
+		want[key] = true
+	}
+	k.x.fieldStores(FieldID{}) // build the index
+	for id, sts := range k.x.stores {
+		key := k.x.cfg.hkey(id)
+		if !want[key] || len(sts) != 1 {
+			continue
+		}
+		switch v := sts[0].Val.(type) {
+		case *ssa.MakeClosure:
+			f, ok := v.Fn.(*ssa.Function)
+			if ok && strings.HasPrefix(f.Synthetic, "bound method wrapper") && len(v.Bindings) == 1 {
+				if obj, ok := f.Object().(*types.Func); ok && obj.Name() == "Now" && c15HasNow(v.Bindings[0].Type()) {
+					k.x.cfg.NowFuncs[key] = true
+				}
+			}
+		case *ssa.Function:
+			if obj, ok := v.Object().(*types.Func); ok && obj.Pkg() != nil && obj.Pkg().Path() == "time" && obj.Name() == "Now" {
+				k.x.cfg.NowFuncs[key] = false
+			}
+		}
+	}
 }
 
 // wiredFrom: the integer field of Cache that (in NewCache's walk) receives a
@@ -264,12 +313,12 @@ func (k *c15K) wiredFrom(ints []string) string {
 			return
 		}
 		id := fieldIDOfAddr(fa)
-		if id.Type != k.x.cfg.CacheT || !isInt[id.Field] {
+		if !isInt[k.x.cfg.hkey(id)] {
 			return
 		}
 		for _, cs := range ctx.cases(st.Val, env, c15Set{}, 0) {
 			if _, _, rid, ok := k.x.fieldRead(cs.V, cs.Env); ok && rid.Type == k.optsT && rid.Field == "MaxTTL" {
-				found = id.Field
+				found = k.x.cfg.hkey(id)
 			}
 		}
 	}, nil)
@@ -278,8 +327,8 @@ func (k *c15K) wiredFrom(ints []string) string {
 
 // chanField: v (in env) is a read of a chan field of Cache; returns its name.
 func (k *c15K) chanField(v ssa.Value, env *c15Env) string {
-	if _, _, id, ok := k.x.fieldRead(v, env); ok && id.Type == k.x.cfg.CacheT {
-		return id.Field
+	if _, _, id, ok := k.x.fieldRead(v, env); ok && k.x.cfg.hkey(id) != "" {
+		return k.x.cfg.hkey(id)
 	}
 	// the channel itself, made locally and also stored into a field of Cache
 	sv, _ := k.x.strip(v, env)
@@ -298,8 +347,8 @@ func (k *c15K) chanField(v ssa.Value, env *c15Env) string {
 				switch t := r.(type) {
 				case *ssa.Store:
 					if fa, ok := t.Addr.(*ssa.FieldAddr); ok && t.Val == v {
-						if id := fieldIDOfAddr(fa); id.Type == k.x.cfg.CacheT {
-							found = id.Field
+						if id := fieldIDOfAddr(fa); k.x.cfg.hkey(id) != "" {
+							found = k.x.cfg.hkey(id)
 						}
 					}
 				case *ssa.ChangeType:
@@ -338,8 +387,8 @@ func (k *c15K) wgOp(in ssa.Instruction, name string) string {
 	}
 	v := ci.Common().Args[0]
 	if fa, ok := v.(*ssa.FieldAddr); ok {
-		if id := fieldIDOfAddr(fa); id.Type == k.x.cfg.CacheT {
-			return id.Field
+		if id := fieldIDOfAddr(fa); k.x.cfg.hkey(id) != "" {
+			return k.x.cfg.hkey(id)
 		}
 	}
 	return ""
@@ -371,7 +420,7 @@ func (k *c15K) joinArm(in ssa.Instruction, env *c15Env) bool {
 		return false
 	}
 	if fa, ok := st.Addr.(*ssa.FieldAddr); ok {
-		if id := fieldIDOfAddr(fa); id.Type == k.x.cfg.CacheT && id.Field == k.runF {
+		if id := fieldIDOfAddr(fa); k.x.cfg.hkey(id) == k.runF {
 			sv, _ := k.x.strip(st.Val, env)
 			_, isMk := sv.(*ssa.MakeChan)
 			return isMk
@@ -572,7 +621,7 @@ func (k *c15K) mapCallE(in ssa.Instruction, env *c15Env, name string) (*ssa.Call
 	if len(cc.Args) == 0 {
 		return nil, false
 	}
-	if _, _, id, ok := k.x.fieldRead(cc.Args[0], env); ok && id.Type == k.x.cfg.CacheT && id.Field == k.mapF {
+	if _, _, id, ok := k.x.fieldRead(cc.Args[0], env); ok && k.x.cfg.hkey(id) == k.mapF {
 		return cc, true
 	}
 	return nil, false
@@ -1129,6 +1178,10 @@ func c15CapRule(p *Prog, r *Report, x *c15X, set *ssa.Function, capRule, expRule
 				r.Undecide("%s%s: the TTL reaching the expiry (%s) is neither the ttl parameter nor the cap field of the cache", fname, sfx, t.String())
 			}
 		}
+		if len(ctx.Opaque) > 0 && (kinds["ttl"].bad != "" || kinds["maxTTL"].bad != "" || kinds["min"].bad != "") {
+			r.Undecide("%s%s: the cap could not be established on some path, but a condition on that path could not be decoded (%s)", fname, sfx, strings.Join(ctx.Opaque, "; "))
+			continue
+		}
 		if a := kinds["ttl"]; a.n > 0 {
 			r.Check(a.bad == "", capRule, fname+" T=ttl"+sfx, pos,
 				"the caller's ttl reaches the expiry only on paths where maxTTL<=0 or ttl<=maxTTL is established",
@@ -1193,8 +1246,8 @@ func (k *c15K) checkWire() {
 				return
 			}
 			if fa, ok := st.Addr.(*ssa.FieldAddr); ok {
-				if id := fieldIDOfAddr(fa); id.Type == k.x.cfg.CacheT && (id.Field == maxF || id.Field == k.x.cfg.ClockF || id.Field == k.mapF) {
-					k.r.Undecide("Cache.%s is written outside NewCache (in %s): the facts about it used by the rules may be stale", id.Field, FuncName(k.p, fn))
+				if id := fieldIDOfAddr(fa); k.x.cfg.hkey(id) != "" && (k.x.cfg.hkey(id) == maxF || k.x.cfg.hkey(id) == k.x.cfg.ClockF || k.x.cfg.hkey(id) == k.mapF) {
+					k.r.Undecide("%s is written outside NewCache (in %s): the facts about it used by the rules may be stale", id.String(), FuncName(k.p, fn))
 				}
 			}
 		})
@@ -1211,7 +1264,7 @@ func (k *c15K) checkWire() {
 		if !ok {
 			return
 		}
-		if id := fieldIDOfAddr(fa); id.Type != k.x.cfg.CacheT || id.Field != maxF {
+		if id := fieldIDOfAddr(fa); k.x.cfg.hkey(id) != maxF {
 			return
 		}
 		n++
@@ -1222,19 +1275,19 @@ func (k *c15K) checkWire() {
 			} else if kc, ok := cs.V.(*ssa.Const); ok && kc.Value != nil {
 				// a constant on some path (e.g. normalising negatives to 0) is fine
 			} else {
-				undec = "the value stored into Cache." + maxF + " is not CacheOptions.MaxTTL"
+				undec = "the value stored into " + maxF + " is not CacheOptions.MaxTTL"
 			}
 		}
 	}, nil)
 	switch {
 	case n == 0:
-		k.r.Violation("C15.U2-wire-maxttl", construct, k.p.Pos(nc.Pos()), "NewCache (and the functions it calls) never stores CacheOptions.MaxTTL into Cache."+maxF+", the field Set caps with: the configured cap is ignored and entries Set with ttl > MaxTTL stay hits after MaxTTL seconds")
+		k.r.Violation("C15.U2-wire-maxttl", construct, k.p.Pos(nc.Pos()), "NewCache (and the functions it calls) never stores CacheOptions.MaxTTL into "+maxF+", the field Set caps with: the configured cap is ignored and entries Set with ttl > MaxTTL stay hits after MaxTTL seconds")
 	case undec != "":
 		k.r.Undecide("%s: %s", construct, undec)
 	case good:
 		k.r.OK("C15.U2-wire-maxttl", construct, k.p.Pos(pos), "NewCache copies the option into the field Set reads")
 	default:
-		k.r.Undecide("%s: only constants are stored into Cache.%s", construct, maxF)
+		k.r.Undecide("%s: only constants are stored into %s", construct, maxF)
 	}
 }
 
@@ -1454,7 +1507,7 @@ func (k *c15K) keyAdds(a *c15DelAnalysis, v ssa.Value, env *c15Env, site c15Site
 		if !ok {
 			return nil, "the address of the key slice variable escapes", false
 		}
-	} else if id, _, ok := fieldOfValue(sv); ok && id.Type != "" && id.Type != k.x.cfg.CacheT {
+	} else if id, _, ok := fieldOfValue(sv); ok && id.Type != "" && k.x.cfg.hkey(id) == "" {
 		// the keys live in a field of a helper object (a collector struct):
 		// every store to that field anywhere in the package is considered
 		if _, isLoad := sv.(*ssa.UnOp); !isLoad {
@@ -1466,6 +1519,9 @@ func (k *c15K) keyAdds(a *c15DelAnalysis, v ssa.Value, env *c15Env, site c15Site
 		return nil, "the key slice is neither an argument list, a local slice variable, a field of a helper object nor the result of a helper returning one", false
 	}
 	for _, st := range stores {
+		if sameSlot(st.Val) {
+			continue // the variable assigned to itself (`return keys` with a named result)
+		}
 		switch t := st.Val.(type) {
 		case *ssa.MakeSlice:
 			continue
@@ -2059,7 +2115,7 @@ func (k *c15K) checkStop() {
 			allInstrs(fn, func(in ssa.Instruction) {
 				if st, ok := in.(*ssa.Store); ok {
 					if fa, ok := st.Addr.(*ssa.FieldAddr); ok {
-						if id := fieldIDOfAddr(fa); id.Type == k.x.cfg.CacheT && id.Field == k.runF {
+						if id := fieldIDOfAddr(fa); k.x.cfg.hkey(id) == k.runF {
 							anywhere = true
 						}
 					}
